@@ -57,7 +57,11 @@ def gen_case(rng, k):
             decls.append(("iface", ctx.fresh("I"), None, ms))
         files.append({"path": "main.idl" if fi == nfiles - 1 else "inc%d.idl" % fi,
                       "includes": ["inc0.idl"] if fi else [], "decls": decls})
-    return {"files": files, "main": "main.idl", "idirs": []}
+    fs = {"files": files, "main": "main.idl", "idirs": []}
+    if k % 3 == 2:
+        # "definitions out of order": a struct declared before the structs it contains
+        gen.reorder_structs(rng, fs)
+    return fs
 
 
 def corpus_cases():
@@ -108,13 +112,25 @@ def raw_header(fs):
         for d in f["decls"]:
             if d[0] == "iface":
                 out.append("typedef Object %s;" % d[1])
-    for f in fs["files"]:
-        for _, name, fields in structs_of(f):
-            out.append("typedef struct {")
-            for t, c, fn in fields:
-                ct = CTYPE.get(t, t)
-                out.append("  %s %s%s;" % (ct, fn, "[%d]" % c if c != 1 else ""))
-            out.append("} %s;" % name)
+    # dependencies first (a struct may be declared before the structs it contains)
+    allst = [(name, fields) for f in fs["files"] for _, name, fields in structs_of(f)]
+    names = {n for n, _ in allst}
+    done, order, todo = set(), [], list(allst)
+    while todo:
+        progressed = False
+        for item in list(todo):
+            n, fields = item
+            if all(t not in names or t in done or t == n for t, c, fn in fields):
+                order.append(item); done.add(n); todo.remove(item); progressed = True
+        if not progressed:
+            order += todo      # a containment cycle: rejected by the compiler anyway
+            break
+    for name, fields in order:
+        out.append("typedef struct {")
+        for t, c, fn in fields:
+            ct = CTYPE.get(t, t)
+            out.append("  %s %s%s;" % (ct, fn, "[%d]" % c if c != 1 else ""))
+        out.append("} %s;" % name)
     return "\n".join(out) + "\n"
 
 
@@ -279,10 +295,15 @@ def run(ctx):
             res["corr_broken"].append({"kind": "correspondence", "detail": "front/size model vs implementation disagree on case %d (flags %s)" % (k, fl), "case": payload})
         if fl[5] == 0:
             res["corr_broken"].append({"kind": "correspondence", "detail": "Layout.v disagrees with gcc/clang on the raw structs of case %d" % k, "case": payload})
+        acc0 = hres[str(k)].get("result") == "ok"
         if fl[3] == 0:
             res["failures"].append(dict(payload, what="the size used for marshalling (MIR) differs from the size the verifier accepted"))
         if fl[4] == 0:
             res["failures"].append(dict(payload, what="a target compiler lays an accepted struct out differently from what the compiler assumes"))
+        all_emitted = all(v == 0 for r in (infos[k].get("emit_rc") or {"x": {"y": 1}}).values() for v in r.values())
+        if acc0 and all_emitted and any(("on emitted" in n or "rustc on emitted" in n) for n in infos[k]["notes"]):
+            res["failures"].append(dict(payload, what="the types emitted for an accepted file set do not compile, so their layout cannot be the assumed one: %s"
+                                                      % [n for n in infos[k]["notes"] if "emitted" in n][0][:300]))
         if len(fl) > 7 and fl[7] > 0:
             res["failures"].append(dict(payload, what="a verified struct used as a parameter has a different size in the target compilers than the size used for marshalling"))
         if len(fl) > 8 and fl[8] > 0:
